@@ -269,7 +269,7 @@ Section Model.
     | TColl c _ => Some (items_of c)
     | _ => None
     end.
-  Definition op_into (to from : tgt) (i : nat) : ires :=
+  Definition op_into (to from : tgt) : ires :=
     match to, from with
     | TBad, _ | _, TBad => RErr EBadRef
     | _, TTrans _ _ => RErr EType
@@ -386,7 +386,7 @@ Section Model.
              | TColl (IQueue p) _ => RVal (opt_or (dq_left L p) enil)
              | _ => RErr EAttr
              end
-    | OInto i j => pure (op_into (target st i) (target st j) i)
+    | OInto i j => pure (op_into (target st i) (target st j))
     | OEmpty i =>
         pure match target st i with
              | TBad => RErr EBadRef
